@@ -6,5 +6,6 @@ export CARGO_NET_OFFLINE=true
 mkdir -p /verif/work /verif/evidence /verif/replays
 cd /verif/harness
 cargo build --offline -p zv -p zv-helpers 2>&1 | tail -3
+(cd /repo && CARGO_TARGET_DIR=/verif/work/target-cli cargo build --offline -p zeep 2>&1 | tail -1)
 if [ -x /verif/work/target/debug/zv ]; then /verif/work/target/debug/zv setup || true; fi
 echo "setup done"
